@@ -100,6 +100,21 @@ POPULATIONS = {
 }
 POP_NAMES = ['rich', 'sparse', 'empty']
 
+# Populations for the association class L of R4 in which the participants take part in 0, 1, 2 and 3 link instances:
+# A[k] (i = 10 + k) is linked with k instances of B, B[0..3] (n = 10, 20, 30, 40) with 3, 2, 1, 0 instances of A.  The link
+# instances are related in an order that differs from the creation order of the partners; R1 / R2 / R3 give the hops before
+# and behind R4 something to reach.  'links-rev' holds the same links with the instances of B and L created in reverse order.
+POPULATIONS['links'] = dict(
+    A=[dict(a_id=1, i=10, s='x', b=True), dict(a_id=2, i=11, s='y', b=False), dict(a_id=3, i=12, s='x', b=True), dict(a_id=4, i=13, s='', b=False)],
+    B=[dict(b_id=11, n=10, t='p'), dict(b_id=12, n=20, t='q'), dict(b_id=13, n=30, t='p'), dict(b_id=14, n=40, t='')],
+    L=[dict(l_id=21 + j, w=11 + j) for j in range(6)],
+    links=dict(R1=[[0, 3], [1, 1], [1, 2]], R2=[[2, 0], [3, 3]], R3=[[1, 3], [3, 2]],
+               R4=[[3, 2, 0], [2, 1, 1], [1, 0, 2], [3, 0, 3], [2, 0, 4], [3, 1, 5]]))
+POPULATIONS['links-rev'] = dict(
+    A=POPULATIONS['links']['A'], B=POPULATIONS['links']['B'][::-1], L=POPULATIONS['links']['L'][::-1],
+    links=dict(R1=[[0, 0], [1, 2], [1, 1]], R2=[[2, 3], [3, 0]], R3=[[1, 3], [3, 2]],
+               R4=[[3, 1, 5], [2, 2, 4], [1, 3, 3], [3, 3, 2], [2, 3, 1], [3, 2, 0]]))
+
 _proc = {}
 
 
@@ -110,7 +125,9 @@ def population(pop):
 
 def random_population(rng):
     """A small arbitrary population that respects the multiplicities of R1..R4."""
-    na, nb, nl = rng.randint(0, 3), rng.randint(0, 3), rng.randint(0, 2)
+    # up to 4 link instances: an instance of A or B may take part in several links of R4 (about half of the populations with
+    # two or more link instances have such a participant)
+    na, nb, nl = rng.randint(0, 3), rng.randint(0, 3), rng.choice([0, 1, 2, 2, 3, 4])
     pop = dict(A=[dict(a_id=1 + i, i=rng.choice([0, 1, 2, 3]), s=rng.choice(['', 'x', 'y']), b=rng.random() < 0.5) for i in range(na)],
                B=[dict(b_id=11 + i, n=rng.choice([0, 2, 10, 20]), t=rng.choice(['', 'x', 'p'])) for i in range(nb)],
                L=[dict(l_id=21 + i, w=rng.choice([0, 5, 6])) for i in range(nl)], links=dict(R1=[], R2=[], R3=[], R4=[]))
@@ -165,7 +182,7 @@ def fresh_domain():
 # ------------------------------------------------------------------------------------------------- populations
 def populate_ref(sch, pop):
     w = R.World(sch)
-    rows = dict((c, [w.create(c, **vals) for vals in pop[c]]) for c in sch.classes)
+    rows = dict((c, [w.create(c, **vals) for vals in pop.get(c, [])]) for c in sch.classes)
     for rel_name, tuples in pop['links'].items():
         rel = sch.rels[rel_name]
         for t in tuples:
@@ -177,7 +194,7 @@ def populate_ref(sch, pop):
 
 
 def populate_real(domain, sch, pop):
-    rows = dict((c, [domain.new(c, **vals) for vals in pop[c]]) for c in sch.classes)
+    rows = dict((c, [domain.new(c, **vals) for vals in pop.get(c, [])]) for c in sch.classes)
     for rel_name, tuples in pop['links'].items():
         rel = sch.rels[rel_name]
         numb = int(rel_name[1:])
@@ -379,7 +396,8 @@ def check_program(tree, pop_name, text=None, style=None):
 
 # ------------------------------------------------------------------------------------------------- generator
 VARS = {'int': ['x', 'y', 'z'], 'str': ['u', 'v'], 'bool': ['p', 'q'], 'id': ['k'],
-        'A': ['a1', 'a2'], 'B': ['b1', 'b2'], 'L': ['l1', 'l2'], 'A*': ['as1'], 'B*': ['bs1'], 'L*': ['ls1']}
+        'A': ['a1', 'a2'], 'B': ['b1', 'b2'], 'L': ['l1', 'l2'], 'A*': ['as1'], 'B*': ['bs1'], 'L*': ['ls1'],
+        'T': ['t1', 't2'], 'T*': ['ts1']}          # T: third class of C15's wide model
 TYPE_OF = dict(integer='int', string='str', boolean='bool', unique_id='id')
 
 
@@ -764,6 +782,7 @@ class Gen(object):
                  (['selfrom', 'any', 'l1', 'L', None], 'l1', 'L'), (['selfrom', 'any', 'l2', 'L', None], 'l2', 'L'),
                  (['selfrom', 'many', 'as1', 'A', None], 'as1', 'A*'),
                  (['selfrom', 'many', 'bs1', 'B', None], 'bs1', 'B*'),
+                 (['selfrom', 'any', 't1', 'T', None], 't1', 'T'), (['selfrom', 'many', 'ts1', 'T', None], 'ts1', 'T*'),
                  (['create', 'a2', 'A'], 'a2', 'A'), (['create', 'b2', 'B'], 'b2', 'B'), (['create', 'l1', 'L'], 'l1', 'L'),
                  (['assign', ['var', 'x'], ['int', 1]], 'x', 'int'), (['assign', ['var', 'u'], ['str', 'x']], 'u', 'str'),
                  (['assign', ['var', 'p'], ['bool', True]], 'p', 'bool')]
@@ -1012,4 +1031,114 @@ def ladder_programs(quick):
                     n += 1
                     out.append((dict(classify=[list(f) for f in fs], has_else=has_else, body=body, loop=loop),
                                 classify_program([list(f) for f in fs], has_else, body, loop)))
+    return out
+
+
+# ------------------------------------------------------------------------------------------------- hops over the association class
+# Selections along chains that cross the association R4 (A many-to-many B, association class L) on populations in which a
+# participant has 0, 1, 2 and 3 link instances.  The language rule (property text: selection along relationship chains, relate
+# with a link instance): `x->B[R4]` reaches the B of *every* link instance x takes part in - the same instances the two-hop
+# form `x->L[R4]->B[R4]` reaches - and each further step of a chain starts from all instances reached so far.
+ASSOC_WHERE = {     # where clauses per class of the selected instances: none holds for the partner related first
+    'links': dict(A=[['bin', '>=', ['attr', ['selected'], 'i'], ['int', 12]], ['bin', '==', ['attr', ['selected'], 'i'], ['int', 11]]],
+                  B=[['bin', '>', ['attr', ['selected'], 'n'], ['int', 10]], ['bin', '==', ['attr', ['selected'], 'n'], ['int', 20]]],
+                  L=[['bin', '>', ['attr', ['selected'], 'w'], ['int', 13]], ['bin', '==', ['attr', ['selected'], 'w'], ['int', 16]]]),
+    'made': dict(A=[['bin', '>=', ['attr', ['selected'], 'i'], ['int', 60]], ['bin', '!=', ['attr', ['selected'], 's'], ['str', 'm']]],
+                 B=[['bin', '>=', ['attr', ['selected'], 'n'], ['int', 200]], ['bin', '==', ['attr', ['selected'], 'n'], ['int', 300]]],
+                 L=[['bin', '>=', ['attr', ['selected'], 'w'], ['int', 21]], ['bin', '==', ['attr', ['selected'], 'w'], ['int', 22]]]),
+}
+
+
+def assoc_chains(sch, start, max_len):
+    """Every chain of 1..max_len navigation steps from class `start` with at least one step over an association that has an
+    association class (the hop to the other participant directly, or to / from the association class)."""
+    steps = Gen(None, None, sch).steps
+    out = []
+
+    def grow(cls, chain, crosses):
+        if chain and crosses:
+            out.append(chain)
+        if len(chain) == max_len:
+            return
+        for to, rel, phrase, _ in steps[cls]:
+            grow(to, chain + [[to, rel, phrase]], crosses or sch.rels[rel].kind == 'linked')
+    grow(start, [], False)
+    return out
+
+
+def _assoc_select(start, start_ty, chain, card, where):
+    """The selection under test + the observation of what it selected (see observe)."""
+    cls = chain[-1][0]
+    sel = ['selrel', card, 'r', ['var', start], chain, where]
+    scope = {'r': cls + '*' if card == 'many' else cls}
+    return [sel] + observe(scope, [], schema()) + [['return', ['var', 'o9']]]
+
+
+def assoc_made_prelude(k, swap):
+    """Statements that build the links themselves: a2 takes part in k link instances (with b1 and k-1 further instances of B),
+    a3 in one (with b1, when k >= 1) or two (with the last B, when k = 3); `relate .. across R4 using ..` in both argument orders."""
+    out = [['create', 'a2', 'A'], ['assign', ['attr', ['var', 'a2'], 'i'], ['int', 50]], ['assign', ['attr', ['var', 'a2'], 's'], ['str', 'm']],
+           ['create', 'a3', 'A'], ['assign', ['attr', ['var', 'a3'], 'i'], ['int', 60]],
+           ['create', 'b1', 'B'], ['assign', ['attr', ['var', 'b1'], 'n'], ['int', 100]]]
+
+    def link(a, b):
+        made = len([s for s in out if s[0] == 'relate'])
+        l = 'lm%d' % made
+        pair = [b, a] if (swap + made) % 2 else [a, b]
+        return [['create', l, 'L'], ['assign', ['attr', ['var', l], 'w'], ['int', 20 + made]], ['relate', pair[0], pair[1], 'R4', None, l]]
+
+    for j in range(k):
+        b = 'b1' if j == 0 else 'bm%d' % j
+        if j:
+            out += [['create', b, 'B'], ['assign', ['attr', ['var', b], 'n'], ['int', 100 * (j + 1)]]]
+        out += link('a2', b)
+        if j == 0 or j == 2:
+            out += link('a3', b)
+    out += [['selfrom', 'many', 'as1', 'A', None], ['selfrom', 'many', 'bs1', 'B', None]]
+    return out
+
+
+ASSOC_STARTS = {        # population 'links' / 'links-rev': variable -> (type, selection that binds it)
+    'A': [('a%d' % k, 'A', ['selfrom', 'any', 'a%d' % k, 'A', ['bin', '==', ['attr', ['selected'], 'i'], ['int', 10 + k]]]) for k in range(4)] +
+         [('as1', 'A*', ['selfrom', 'many', 'as1', 'A', None]),
+          ('as2', 'A*', ['selfrom', 'many', 'as2', 'A', ['bin', '>=', ['attr', ['selected'], 'i'], ['int', 12]]])],
+    'B': [('b%d' % k, 'B', ['selfrom', 'any', 'b%d' % k, 'B', ['bin', '==', ['attr', ['selected'], 'n'], ['int', 10 * (k + 1)]]]) for k in range(4)] +
+         [('bs1', 'B*', ['selfrom', 'many', 'bs1', 'B', None])],
+    'L': [('l4', 'L', ['selfrom', 'any', 'l4', 'L', ['bin', '==', ['attr', ['selected'], 'w'], ['int', 14]]]),
+          ('ls1', 'L*', ['selfrom', 'many', 'ls1', 'L', None])],
+}
+
+
+def assoc_hop_programs(quick):
+    """Deterministic list of (description, tree, population)."""
+    sch = schema()
+    out = []
+    max_len = 2 if quick else 3
+    chains = dict((c, assoc_chains(sch, c, max_len)) for c in ('A', 'B', 'L'))
+    n = 0
+    for cls in ('A', 'B', 'L'):
+        for var, ty, stmt in ASSOC_STARTS[cls]:
+            for chain in chains[cls]:
+                wheres = [None] + ASSOC_WHERE['links'][chain[-1][0]]
+                if len(chain) > 2:
+                    wheres = wheres[:2]
+                for w in wheres:
+                    for card in ('one', 'any', 'many'):
+                        n += 1
+                        pop = 'links' if quick and n % 8 else ('links', 'links-rev')
+                        for p in ([pop] if isinstance(pop, str) else pop):
+                            out.append((dict(start=var, chain=chain, card=card, where=w is not None, population=p),
+                                        [stmt] + _assoc_select(var, ty, chain, card, w), p))
+    # links made by the program itself with `relate .. to .. across R4 using ..`
+    made_chains = dict((c, assoc_chains(sch, c, 2)) for c in ('A', 'B'))
+    for k in range(4):
+        for swap in ((k % 2,) if quick else (0, 1)):        # both argument orders occur for every k (they alternate per statement)
+            pre = assoc_made_prelude(k, swap)
+            for var, ty in (('a2', 'A'), ('b1', 'B'), ('as1', 'A*')) + ((('a3', 'A'), ('bs1', 'B*')) if not quick else ()):
+                for chain in made_chains[ty[0]]:
+                    for w in [None] + ASSOC_WHERE['made'][chain[-1][0]][:1 if quick else 2]:
+                        for card in ('one', 'any', 'many'):
+                            out.append((dict(start=var, chain=chain, card=card, where=w is not None, made=k, swap=swap),
+                                        pre + _assoc_select(var, ty, chain, card, w), 'sparse'))
+    out.sort(key=lambda t: (len(t[0]['chain']), t[0]['where'], 'made' in t[0]))       # stable: the smallest programs first
     return out
